@@ -432,4 +432,103 @@ example : at4.Perm at4.reverse ∧ KeysNodup at4 ∧
 example : resConnected (resEdges at4 ed4) 2 (rk "A" 1) (rk "A" 3) = true ∧
     resConnected (resEdges at4 ed4) 1 (rk "A" 1) (rk "A" 3) = false := by decide
 
+/-! ## the processor object: option resolution and reuse -/
+
+/-- **explicit_option_kept.** A bond type / residue separation given to the constructor (anything but `None`,
+0 included) is what `run_molecule` uses, whatever the force field says. -/
+theorem explicit_option_kept (p : Proc) (vars : List (String × Int)) :
+    (∀ v, p.bondType = some v → (resolveOptions p vars).bondType = v) ∧
+    (∀ v, p.resMinDist = some v → (resolveOptions p vars).resMinDist = v) := by
+  constructor <;> intro v h <;> simp [resolveOptions, orVariable, h]
+
+/-- **fallback_is_variable_else_default.** An option left at `None` takes the value of the force-field variable
+named by the processor if the force field of THIS molecule has it, else the documented default (6 / 2). -/
+theorem fallback_is_variable_else_default (p : Proc) (vars : List (String × Int)) :
+    (p.bondType = none → (resolveOptions p vars).bondType = (vars.lookup p.bondTypeVar).getD 6) ∧
+    (p.resMinDist = none → (resolveOptions p vars).resMinDist = (vars.lookup p.resMinDistVar).getD 2) := by
+  constructor <;> intro h <;> simp [resolveOptions, orVariable, h, DEFAULT_BOND_TYPE, DEFAULT_RMD]
+
+/-- Everything else comes from the constructor, never from the force field. -/
+theorem constructor_options_pass_through (p : Proc) (vars : List (String × Int)) :
+    let o := resolveOptions p vars
+    o.names = p.names ∧ o.lower = p.lower ∧ o.upper = p.upper ∧ o.decayFactor = p.decayFactor ∧
+    o.decayPower = p.decayPower ∧ o.base = p.base ∧ o.minForce = p.minForce := by
+  simp [resolveOptions]
+
+/-- The squared cut-off handed to `run`: `d2 ≤ upper2Of u` iff `d2 ≤ (256 u)²`. -/
+theorem upper2Of_spec (u : Rat) (d2 : Nat) :
+    d2 ≤ upper2Of u ↔ (d2 : Rat) ≤ (u * 256) * (u * 256) := by
+  unfold upper2Of
+  have h0 : (0 : Int) ≤ ((u * 256) * (u * 256)).floor := by
+    rw [Rat.le_floor_iff]; simpa using mul_self_nonneg (u * 256)
+  rw [← Int.ofNat_le, Int.toNat_of_nonneg h0, Rat.le_floor_iff]
+  simp
+
+/-- **processor_stateless.** One `ApplyRubberBand` object applied to several molecules in a row (different
+force fields, variables, atoms) gives on each of them what a freshly constructed processor with the same
+constructor arguments gives on that molecule alone, and its configuration is unchanged afterwards. -/
+theorem processor_stateless (p : Proc) (ms : List MolInput) :
+    runHistory p ms = ms.map (runMolecule p) := by
+  induction ms with
+  | nil => rfl
+  | cons m ms ih => simp only [runHistory, procStep, List.map_cons, ih]
+
+theorem processor_config_unchanged (p : Proc) (m : MolInput) : (procStep p m).1 = p := rfl
+
+def procNone : Proc :=
+  { names := ["BB"], lower := 0, upper := 230 / 256, decayFactor := 0, decayPower := 0, base := 700, minForce := 0,
+    resMinDist := none, bondType := none, bondTypeVar := "elastic_network_bond_type",
+    resMinDistVar := "elastic_network_res_min_dist", dom := .always }
+
+/-- non-vacuity: explicit 0 is kept although the force field offers 3; `None` takes the variable of the second
+force field and the default with the third; the same object sees a different value per molecule -/
+example :
+    (resolveOptions { procNone with resMinDist := some 0, bondType := some 0 }
+        [("elastic_network_res_min_dist", 3), ("elastic_network_bond_type", 1)]).resMinDist = 0 ∧
+    (resolveOptions { procNone with resMinDist := some 0, bondType := some 0 }
+        [("elastic_network_res_min_dist", 3), ("elastic_network_bond_type", 1)]).bondType = 0 ∧
+    (resolveOptions procNone [("elastic_network_res_min_dist", 3)]).resMinDist = 3 ∧
+    (resolveOptions procNone [("elastic_network_res_min_dist", 0)]).resMinDist = 0 ∧
+    (resolveOptions procNone [("other", 3)]).resMinDist = 2 ∧
+    (resolveOptions procNone []).bondType = 6 := by decide
+
+/-- non-vacuity of `upper2Of_spec`: a cut-off of 230 lattice units -/
+example : upper2Of procNone.upper = 230 * 230 := by decide +kernel
+
+/-! ## residue regions: overlapping, unordered -/
+
+/-- **region_criterion_iff.** Two atoms share a region domain iff SOME region holds both residues
+(bounds of a region in either order); the first region that holds the left residue does not settle it. -/
+theorem region_criterion_iff (rs : List (Int × Int)) (a b : Atom) :
+    crit (.regions rs) a b = true ↔
+      ∃ r ∈ rs, (min r.1 r.2 ≤ effResid a ∧ effResid a ≤ max r.1 r.2) ∧
+                (min r.1 r.2 ≤ effResid b ∧ effResid b ≤ max r.1 r.2) := by
+  simp [crit, inRegion]
+
+/-- the order in which the regions are listed is irrelevant -/
+theorem region_order_irrelevant (rs rs' : List (Int × Int)) (h : rs.Perm rs') (a b : Atom) :
+    crit (.regions rs) a b = crit (.regions rs') a b := by
+  rw [Bool.eq_iff_iff, region_criterion_iff, region_criterion_iff]
+  simp only [h.mem_iff]
+
+/-- the order of the two bounds of a region is irrelevant -/
+theorem region_bounds_unordered (x y : Int) (rs : List (Int × Int)) (a b : Atom) :
+    crit (.regions ((x, y) :: rs)) a b = crit (.regions ((y, x) :: rs)) a b := by
+  rw [Bool.eq_iff_iff, region_criterion_iff, region_criterion_iff]
+  constructor <;> rintro ⟨r, hr, h⟩
+  · rcases List.mem_cons.mp hr with rfl | hr'
+    · exact ⟨(y, x), List.mem_cons_self .., by simpa [min_comm, max_comm] using h⟩
+    · exact ⟨r, List.mem_cons_of_mem _ hr', h⟩
+  · rcases List.mem_cons.mp hr with rfl | hr'
+    · exact ⟨(x, y), List.mem_cons_self .., by simpa [min_comm, max_comm] using h⟩
+    · exact ⟨r, List.mem_cons_of_mem _ hr', h⟩
+
+/-- overlapping regions (1..5, 4..8): residues 4 and 7 share the second region although the first one holds
+residue 4 as well; with disjoint regions they do not share one -/
+example :
+    crit (.regions [(1, 5), (4, 8)]) { (default : Atom) with oldResid := some 4 } { (default : Atom) with oldResid := some 7 } = true ∧
+    crit (.regions [(5, 1), (8, 4)]) { (default : Atom) with oldResid := some 7 } { (default : Atom) with oldResid := some 4 } = true ∧
+    crit (.regions [(1, 5), (6, 8)]) { (default : Atom) with oldResid := some 4 } { (default : Atom) with oldResid := some 7 } = false := by
+  decide
+
 end C15
